@@ -180,14 +180,17 @@ func c01Check(c C01Case, rec *Recorder) *Disc {
 		rec.Class("list-with-non-label-boundary-shared-suffix")
 	}
 	hits, misses := 0, 0
+	// every probe of a middleware goes through one wrapped handler: the model knows no history
+	wraps := []func(http.Handler) http.Handler{oneWrap(m1.Wrap), oneWrap(m2.Wrap)}
+	m1.Config() // Config() is an observer: calling it (on the first middleware only) changes nothing about matching
 	for _, o := range probes {
 		if !hostLenOK(o) {
 			rec.Class("probe-not-judged-too-long")
 			continue
 		}
 		exp := model.Allowed(o)
-		for i, m := range []*cors.Middleware{m1, m2} {
-			g, p, bad := originVerdictsStar(m.Wrap, o, model.All)
+		for i, wrap := range wraps {
+			g, p, bad := originVerdictsStar(wrap, o, model.All)
 			if bad != "" {
 				return discf("patterns %q (middleware %d): %s", pick2(i, c.Pats, c.Twin), i, bad)
 			}
@@ -274,7 +277,10 @@ func c01ExCheck(c C01Ex, origins []string, rec *Recorder) *Disc {
 		return discf("valid pattern list %q rejected: %v", c.Pats, err)
 	}
 	model := NewOriginModel(c.Pats)
-	wrap := m.Wrap
+	wrap := oneWrap(m.Wrap)
+	if h64(fmt.Sprint(c.Pats))%2 == 0 {
+		m.Config() // an observer; called for part of the enumeration only
+	}
 	n := 0
 	for _, o := range origins {
 		exp := model.DenotedBy(o)
